@@ -153,6 +153,17 @@ Theorem pushed_inputs_are_spent_afterwards : forall env nw w st op st' x,
   forall u, In u (hs_view st') -> In (u_id u) (map u_id (t_inputs (x_tx x))) -> u_spent u = true.
 Proof. exact pushed_inputs_spent. Qed.
 
+(* conflicting stored transactions: while another stored transaction s' refers to output i, deleting transaction s
+   (transaction_delete, WalletTransaction.delete, the deletion inside a fee bump) does not make i spendable again *)
+Theorem delete_keeps_conflicting_spend_spent : forall st s s' i u,
+  hinv st -> In (s', i) (hs_txins st) -> s' <> s -> In u (hs_view (h_delete st s)) -> u_id u = i -> u_spent u = true.
+Proof. exact delete_keeps_conflict_spent. Qed.
+
+Theorem delete_never_reopens_conflicting_spend : forall env nw w st s st' out s' i,
+  hinv st -> h_step env nw w st (HDelete (Some s)) = (st', out) -> In (s', i) (hs_txins st) -> s' <> s ->
+  ~ In i (map fst (spendable st')).
+Proof. exact delete_step_lemma. Qed.
+
 (* utxos_update / utxo_add: for every listing, account and rescan flag the stored inputs decide what is spent *)
 Theorem utxos_update_keeps_consumed_spent : forall st acct listing rescan,
   hinv st ->
@@ -318,6 +329,23 @@ Example history_example :
      (None, [1006]); (None, [1006]); (Some ([1006], 10000), [1006])].
 Proof. vm_compute. reflexivity. Qed.
 
+(* non-vacuity, conflicting stored transactions: output 0 is spent by transaction 1000 and again (explicit input list, replace
+   by fee) by transaction 1004; deleting the one stored FIRST leaves 0 spent (the payment of 2.5 BTC, which would need it,
+   is refused); deleting the second one as well re-opens it; a transaction that is not stored any more is "not found" *)
+Definition x0 : xin := {| x_id := 0; x_key := None; x_claim := None; x_addr := false; x_obj := false |}.
+Example delete_conflicting_example :
+  hist_summary (h_run env0 nw_bitcoinlib_test w_segwit h_empty
+    [HUpdate 0 three true;
+     HSend (hrq 50000000 (Some [x0]) (FeeInt 10000) 1 1 true) no_oracle no_oracle true true;
+     HSend (hrq 60000000 (Some [x0]) (FeeInt 20000) 1 1 true) no_oracle no_oracle true true;
+     HDelete (Some 1000);
+     HSend (hrq 250000000 None (FeeInt 10000) 1 1 false) no_oracle no_oracle false true;
+     HDelete (Some 1004);
+     HDelete (Some 1004)])
+  = [(None, [0; 1; 2]); (Some ([0], 10000), [1; 2; 1002]); (Some ([0], 20000), [1; 2; 1002; 1006]);
+     (None, [1; 2; 1006]); (None, [1; 2; 1006]); (None, [0; 1; 2]); (None, [0; 1; 2])].
+Proof. vm_compute. reflexivity. Qed.
+
 Definition st_three : hstate := fst (h_step env0 nw_bitcoinlib_test w_segwit h_empty (HUpdate 0 three false)).
 Definition xq (id : Z) (claim : option Z) (addr : bool) : xin :=
   {| x_id := id; x_key := Some 7; x_claim := claim; x_addr := addr; x_obj := false |}.
@@ -411,3 +439,5 @@ Print Assumptions select_respects_max_utxos.
 Print Assumptions sweep_inputs_unspent_confirmed.
 Print Assumptions explicit_inputs_use_wallet_values.
 Print Assumptions explicit_inputs_claims_ignored.
+Print Assumptions delete_keeps_conflicting_spend_spent.
+Print Assumptions delete_never_reopens_conflicting_spend.
